@@ -383,3 +383,16 @@ Qed.
 (* the same without a caller dict *)
 Theorem resolve_none_scale : forall fresh r, resolve fresh None = OOk r -> r_scale_id r = fresh.
 Proof. intros fresh r H. cbv -[N.eqb] in H. inversion H. reflexivity. Qed.
+
+(* the direction the constructor writes into the engine-option dict is not an engine option:
+   Force(options["labella"]) reads the same values with or without it *)
+Lemma opt_key_dset_other : forall {A} (l : dict) (k k' : N) (f : oval -> ores A) v,
+  k' <> k -> opt_key (dset l k' v) k f = opt_key l k f.
+Proof. intros A l k k' f v H. unfold opt_key. rewrite dget_dset_other by exact H. reflexivity. Qed.
+
+Theorem engine_update_ignores_direction : forall l dir,
+  engine_update (dset l E_direction dir) = engine_update l.
+Proof.
+  intros l dir. unfold engine_update.
+  rewrite !(opt_key_dset_other l _ E_direction) by discriminate. reflexivity.
+Qed.
